@@ -701,8 +701,18 @@ func exec(op string) string {
 		}
 		R.reset(beh)
 		var cb apientry.HandlerCBFunc
-		if hx.KVInt(ws, "cb") == 1 {
+		switch hx.KVInt(ws, "cb") {
+		case 1:
 			cb = func(e error, v interface{}) { R.comps = append(R.comps, R.src+":"+class(e, v)) }
+		case 2:
+			// a PICKY completion function of the caller's own: like the dispatcher's closure (which panics in Response on a
+			// result it cannot serialise) it panics, before delivering anything, on the value the "bad" scripts complete with
+			cb = func(e error, v interface{}) {
+				if _, bad := v.(*MsgA); bad && e == nil {
+					panic("picky completion function: a value it cannot take")
+				}
+				R.comps = append(R.comps, R.src+":"+class(e, v))
+			}
 		}
 		ctx := mkCtx(kvs(ws, "ctx"))
 		p := hx.Guard(func() string {
@@ -1279,6 +1289,21 @@ func (g *gen) cbFor(t target) int {
 	return hx.B2i(h.R.Intn(4) != 0)
 }
 
+// cbBeh: the completion function (0 none, 1 plain, 2 picky: 1 in 6 of those that carry one) and the handler script;
+// a picky one mostly meets a script that completes with the value it chokes on
+func (g *gen) cbBeh(t target) (int, string) {
+	h := g.h
+	cb := g.cbFor(t)
+	beh := g.beh()
+	if cb == 1 && h.R.Intn(6) == 0 {
+		cb = 2
+		if h.R.Intn(2) == 0 {
+			beh = []string{"badval", "errbad"}[h.R.Intn(2)]
+		}
+	}
+	return cb, beh
+}
+
 func (g *gen) cszOp() string {
 	h := g.h
 	t := g.target()
@@ -1306,12 +1331,12 @@ func (g *gen) cszOp() string {
 	if h.R.Intn(40) == 0 { // a user serializer whose Unmarshal panics (outside SafeCall)
 		ser = "panicser"
 	}
-	cb := g.cbFor(t)
+	cb, beh := g.cbBeh(t)
 	h.Count("csz.ser." + ser)
 	h.Count(fmt.Sprintf("csz.cb%d", cb))
 	h.Count("ctx." + ctx)
 	return fmt.Sprintf("csz col=%d route=%s ser=%s ctx=%s ctxt=%s cb=%d beh=%s data=%s%s", t.col, hx16(t.route), ser, ctx, ctxTypeHex(ctx),
-		cb, g.beh(), hx.Hex(data), decodeHints(ser, data))
+		cb, beh, hx.Hex(data), decodeHints(ser, data))
 }
 
 func (g *gen) callOp() string {
@@ -1344,8 +1369,10 @@ func (g *gen) callOp() string {
 		argt, argv = hx16(reflect.TypeOf(a).String()), digest(a)
 	}
 	h.Count("call.arg." + an)
+	cb, beh := g.cbBeh(t)
+	h.Count(fmt.Sprintf("call.cb%d", cb))
 	return fmt.Sprintf("call col=%d route=%s ctx=%s ctxt=%s cb=%d beh=%s arg=%s argt=%s argv=%s", t.col, hx16(t.route), ctx, ctxTypeHex(ctx),
-		g.cbFor(t), g.beh(), an, argt, argv)
+		cb, beh, an, argt, argv)
 }
 
 func (g *gen) dispOp() string {
@@ -1445,7 +1472,7 @@ func countObs(h *hx.T, op, obs string) {
 	}
 	switch kind {
 	case "csz", "call", "disp":
-		cb := strings.Contains(op, " cb=1") || (kind == "disp" && !strings.Contains(op, " reqid=0 "))
+		cb := strings.Contains(op, " cb=1") || strings.Contains(op, " cb=2") || (kind == "disp" && !strings.Contains(op, " reqid=0 "))
 		ran := !strings.Contains(obs, "ran=-")
 		switch {
 		case strings.Contains(obs, "panic"):
@@ -1453,7 +1480,11 @@ func countObs(h *hx.T, op, obs string) {
 		case ran && strings.Contains(obs, "comps=-"):
 			h.Count(fmt.Sprintf("reached.%s.handler-ran.no-completion.cb%d", kind, hx.B2i(cb)))
 		case ran && strings.Contains(obs, ",f:err"):
-			h.Count("reached." + kind + ".handler-completed-then-panicked")
+			h.Count("reached." + kind + ".handler-completed-then-FRAMEWORK-COMPLETED-AGAIN(D23)")
+		case ran && (strings.Contains(op, "beh=okpanic") || strings.Contains(op, "beh=errpanic")) && !strings.Contains(obs, ","):
+			h.Count("reached." + kind + ".handler-completed-then-panicked.one-completion")
+		case ran && strings.Contains(op, " cb=2") && strings.Contains(obs, "comps=f:err") && strings.Contains(op, "beh=badval"):
+			h.Count("reached." + kind + ".picky-callback-choked.framework-completed")
 		case ran && strings.Contains(obs, "comps=f:err"):
 			h.Count("reached." + kind + ".handler-panicked.framework-completed")
 		case ran && strings.Contains(obs, ",h:"):
